@@ -1,8 +1,18 @@
 import FeatModel.Model.Adjacency
+import FeatModel.Model.AdjKernels
+import FeatModel.Lemmas.C19_api
 import FeatModel.Lemmas.C19_cm
+import FeatModel.Lemmas.C19_colk
 import FeatModel.Lemmas.C19_color
+import FeatModel.Lemmas.C19_csr
+import FeatModel.Lemmas.C19_dyn
+import FeatModel.Lemmas.C19_kernels
+import FeatModel.Lemmas.C19_layers
 import FeatModel.Lemmas.C19_perms
+import FeatModel.Lemmas.C19_perms2
 import FeatModel.Lemmas.C19_renders
+import FeatModel.Lemmas.C19_rowk
+import FeatModel.Lemmas.C19_walk
 /-! # C19 — property theorems (statements only; proofs live in Lemmas/C19_*.lean) -/
 open FeatModel.Adj
 
@@ -102,3 +112,150 @@ theorem C19.cm_bijection (g : Graph) (hsq : g.nImg = g.nDom) (hwf : g.wf = true)
     ∃ perm layers, CM.compute g rev rt st = some (perm, layers) ∧ perm.length = g.nDom ∧
       Perm.isBijection perm = true :=
   C19L.cm.cm_bijection g hsq hwf hn rev rt st
+
+theorem C19.adjactor_ofGraph_spec (g : Graph) :
+    (Adjactor.ofGraph g).Lawful ∧ (Adjactor.ofGraph g).toGraph = g ∧ ∀ i, (Adjactor.ofGraph g).images i = g.row i :=
+  C19L.walk.adjactor_ofGraph_spec g
+
+theorem C19.adjactor_composite_spec (a b : Graph) :
+    (Adjactor.composite a b).Lawful ∧ (Adjactor.composite a b).toGraph = Graph.compose a b ∧
+    ∀ i, (Adjactor.composite a b).images i = (a.row i).flatMap b.row :=
+  C19L.walk.adjactor_composite_spec a b
+
+theorem C19.walk_spec {σ : Type} (A : Adjactor) (hA : A.Lawful) (inj : Bool) (i : Nat) (f : σ → Nat → σ) (s : σ)
+    (m : Kern.Mask) (hm : ∀ k, m.getD k false = false) (hr : ∀ v, v ∈ A.images i → v < m.size) :
+    Kern.walk A inj i f (s, m) = ((if inj then Graph.dedup (A.images i) else A.images i).foldl f s, m) :=
+  C19L.walk.walk_spec A hA inj i f s m hm hr
+
+theorem C19.renderRows_spec (A : Adjactor) (hA : A.Lawful) (hwf : A.toGraph.wf = true) (inj : Bool) :
+    Kern.renderRows A inj = Arrays.ofGraph (if inj then A.toGraph.injectify else A.toGraph) :=
+  C19L.rowk.renderRows_spec A hA hwf inj
+
+theorem C19.renderCols_spec (A : Adjactor) (hA : A.Lawful) (hwf : A.toGraph.wf = true) (inj : Bool) :
+    Kern.renderCols A inj = Arrays.ofGraph (if inj then A.toGraph.injectifyTranspose else A.toGraph.transpose) :=
+  C19L.colk.renderCols_spec A hA hwf inj
+
+theorem C19.sortSegments_spec (g : Graph) :
+    Kern.sortSegments (Arrays.ofGraph g) = some (Arrays.ofGraph g.sortIndices) :=
+  C19L.rowk.sortSegments_spec g
+
+theorem C19.kernel_render_eq (rt : Nat) (g : Graph) (hwf : g.wf = true) :
+    Kern.render rt (Adjactor.ofGraph g) = (g.render rt).map Arrays.ofGraph :=
+  C19L.kernels.kernel_render_eq rt g hwf
+
+theorem C19.kernel_render2_eq (rt : Nat) (a b : Graph) (hb : b.wf = true) :
+    Kern.render2 rt a b = (Graph.renderComposite rt a b).map Arrays.ofGraph :=
+  C19L.kernels.kernel_render2_eq rt a b hb
+
+theorem C19.degree_spec (g : Graph) :
+    Kern.degreeAll (Arrays.ofGraph g) = g.maxDegree ∧
+    (∀ i, i < g.nDom → Kern.degreeAt (Arrays.ofGraph g) i = (g.row i).length) ∧
+    (∀ i, (g.row i).length ≤ g.maxDegree) ∧
+    (0 < g.nDom → ∃ i, i < g.nDom ∧ (g.row i).length = g.maxDegree) :=
+  C19L.api.degree_spec g
+
+theorem C19.permuteIndices_spec (g : Graph) (p : List Nat) (r : Arrays)
+    (h : Kern.permuteIndices (Arrays.ofGraph g) p = some r) :
+    r = Arrays.ofGraph { g with adj := g.adj.map fun l => l.map fun k => p.getD k 0 } :=
+  C19L.api.permuteIndices_spec g p r h
+
+theorem C19.clone_spec (g : Graph) : Kern.clone (Arrays.ofGraph g) = Arrays.ofGraph g :=
+  C19L.api.clone_spec g
+
+theorem C19.numDistinct_spec (col d : List Nat) (hd : d.Nodup) (hm : ∀ c, c ∈ d ↔ c ∈ col) :
+    Coloring.numDistinct col = d.length :=
+  C19L.api.numDistinct_spec col d hd hm
+
+theorem C19.greedy_colors_contiguous (g : Graph) (hsq : g.nImg = g.nDom) (hwf : g.wf = true) :
+    Coloring.numDistinct (Coloring.greedy g).coloring.toList = (Coloring.greedy g).numColors :=
+  C19L.api.greedy_colors_contiguous g hsq hwf
+
+theorem C19.dyn_insert_spec (g : DynGraph) (hs : ∀ l, l ∈ g.rows → l.Pairwise (· < ·)) (i j : Nat) (hi : i < g.nDom) :
+    (∀ l, l ∈ (g.insert i j).1.rows → l.Pairwise (· < ·)) ∧ (g.insert i j).2 = !(g.exists i j) ∧
+    (∀ i' k, (g.insert i j).1.exists i' k = (g.exists i' k || (i' == i && k == j))) ∧
+    (g.insert i j).1.nDom = g.nDom ∧ (g.insert i j).1.nImg = g.nImg :=
+  C19L.dyn.dyn_insert_spec g hs i j hi
+
+theorem C19.dyn_erase_spec (g : DynGraph) (hs : ∀ l, l ∈ g.rows → l.Pairwise (· < ·)) (i j : Nat) (hi : i < g.nDom) :
+    (∀ l, l ∈ (g.erase i j).1.rows → l.Pairwise (· < ·)) ∧ (g.erase i j).2 = g.exists i j ∧
+    (∀ i' k, (g.erase i j).1.exists i' k = (g.exists i' k && !(i' == i && k == j))) ∧
+    (g.erase i j).1.nDom = g.nDom ∧ (g.erase i j).1.nImg = g.nImg :=
+  C19L.dyn.dyn_erase_spec g hs i j hi
+
+theorem C19.dyn_ofAdjactor_spec (A : Adjactor) (hA : A.Lawful) :
+    (∀ l, l ∈ (DynGraph.ofAdjactor A false).rows → l.Pairwise (· < ·)) ∧
+    (DynGraph.ofAdjactor A false).nDom = A.nDom ∧ (DynGraph.ofAdjactor A false).nImg = A.nImg ∧
+    ∀ i k, i < A.nDom → (DynGraph.ofAdjactor A false).exists i k = (A.images i).contains k :=
+  C19L.dyn.dyn_ofAdjactor_spec A hA
+
+theorem C19.dyn_ofAdjactor_transpose_spec (A : Adjactor) (hA : A.Lawful) (hwf : A.toGraph.wf = true) :
+    (∀ l, l ∈ (DynGraph.ofAdjactor A true).rows → l.Pairwise (· < ·)) ∧
+    (DynGraph.ofAdjactor A true).nDom = A.nImg ∧ (DynGraph.ofAdjactor A true).nImg = A.nDom ∧
+    ∀ i k, i < A.nDom → k < A.nImg → (DynGraph.ofAdjactor A true).exists k i = (A.images i).contains k :=
+  C19L.dyn.dyn_ofAdjactor_transpose_spec A hA hwf
+
+theorem C19.dyn_render_spec (g : DynGraph) (hs : ∀ l, l ∈ g.rows → l.Pairwise (· < ·)) :
+    g.toGraph.injectify = g.toGraph ∧ g.toGraph.sortIndices = g.toGraph :=
+  C19L.dyn.dyn_render_spec g hs
+
+theorem C19.dyn_compose_spec (g : DynGraph) (b : Graph) (r : DynGraph) (h : g.compose b = some r) :
+    (∀ l, l ∈ r.rows → l.Pairwise (· < ·)) ∧ r.nDom = g.nDom ∧ r.nImg = b.nImg ∧
+    ∀ i k, r.exists i k = ((g.row i).flatMap b.row).contains k :=
+  C19L.dyn.dyn_compose_spec g b r h
+
+theorem C19.compositeIterator_spec (a b : Graph) (i : Nat) (h : ∀ j r, a.row i = j :: r → b.row j ≠ []) :
+    CompIt.imagesOf a b i = some ((a.row i).flatMap b.row) :=
+  C19L.api.compositeIterator_spec a b i h
+
+theorem C19.compositeIterator_fixed_spec (a b : Graph) (i : Nat) :
+    CompIt.imagesOfFixed a b i = some ((a.row i).flatMap b.row) ∧
+    ((∀ j r, a.row i = j :: r → b.row j ≠ []) → CompIt.beginFixed a b i = CompIt.begin a b i) :=
+  C19L.api.compositeIterator_fixed_spec a b i
+
+theorem C19.degree_is_max (a : Arrays) :
+    Kern.degreeAll a = (List.range (a.ptr.size - 1)).foldl (fun d i => max d (Kern.degreeAt a i)) 0 ∧
+    (∀ i, i < a.ptr.size - 1 → Kern.degreeAt a i ≤ Kern.degreeAll a) ∧
+    (0 < a.ptr.size - 1 → ∃ i, i < a.ptr.size - 1 ∧ Kern.degreeAt a i = Kern.degreeAll a) :=
+  C19L.api.degree_is_max a
+
+theorem C19.compositeIterator_empty_head (a b : Graph) (i j : Nat) (r : List Nat) (h : a.row i = j :: r)
+    (he : b.row j = []) : CompIt.imagesOf a b i = none :=
+  C19L.api.compositeIterator_empty_head a b i j r h he
+
+theorem C19.cm_layers_are_bfs_levels (g : Graph) (hsq : g.nImg = g.nDom) (hwf : g.wf = true) (hn : 0 < g.nDom)
+    (rev : Bool) (rt : CM.RootType) (st : CM.SortType) (perm layers : List Nat)
+    (h : CM.compute g rev rt st = some (perm, layers)) :
+    CM.LayersAreBfsLevels g rev perm layers :=
+  C19L.layers.cm_layers_are_bfs_levels g hsq hwf hn rev rt st perm layers h
+
+theorem C19.inverse_inverse (p : List Nat) (h : Perm.isBijection p = true) :
+    Perm.invPerm (Perm.invPerm p) = p :=
+  C19L.perms2.inverse_inverse p h
+
+theorem C19.concat_inverse (p : List Nat) (h : Perm.isBijection p = true) :
+    (p.map fun k => (Perm.invPerm p).getD k 0) = List.range p.length ∧
+    ((Perm.invPerm p).map fun k => p.getD k 0) = List.range p.length :=
+  C19L.perms2.concat_inverse p h
+
+theorem C19.self_concat {α : Type} [Inhabited α] (p : List Nat) (x : List α) (h : Perm.isBijection p = true)
+    (hx : x.length = p.length) :
+    Perm.isBijection (p.map fun k => p.getD k 0) = true ∧
+    Perm.applyPerm (p.map fun k => p.getD k 0) x = Perm.applyPerm p (Perm.applyPerm p x) :=
+  C19L.perms2.self_concat p x h hx
+
+theorem C19.random_ctor_bijection (s : List Nat) (hn : 0 < s.length)
+    (hs : ∀ i, i + 1 < s.length → i ≤ s.getD i 0 ∧ s.getD i 0 < s.length) (hl : s.getD (s.length - 1) 0 = s.length - 1) :
+    Perm.isBijection (Perm.permFromSwap s) = true :=
+  C19L.perms2.random_ctor_bijection s hn hs hl
+
+theorem C19.graph_permuted_spec (g : Graph) (dp ip : List Nat) (hd : Perm.isBijection dp = true)
+    (hlen : dp.length = g.nDom) (i : Nat) (hi : i < g.nDom) :
+    (g.permuted dp ip).nDom = g.nDom ∧ (g.permuted dp ip).nImg = g.nImg ∧
+    (g.permuted dp ip).row i = (g.row (dp.getD i 0)).map fun k => ip.getD k 0 :=
+  C19L.perms2.graph_permuted_spec g dp ip hd hlen i hi
+
+theorem C19.graph_csr_permute_consistent {α : Type} [Zero α] (A : FeatModel.LA.Csr α) (p qinv : Array Nat) (i : Nat)
+    (hi : i < A.rows) (hp : p.size = A.rows) (hpr : ∀ k, k < p.size → p.getD k 0 < A.rows) :
+    (A.permRow p qinv i).map (·.1) =
+      (((C19L.csr.patternOf A).permuted p.toList qinv.toList).sortIndices).row i :=
+  C19L.csr.graph_csr_permute_consistent A p qinv i hi hp hpr
